@@ -200,12 +200,12 @@ let dec_s = function
 
 let dispatch cmd args =
   match cmd, args with
-  | "pder", [t; v] -> Some (hex_opt (pb_der (parse_sty t) (val_of v)))
-  | "poer", [t; v] -> Some (hex_opt (pb_oer (parse_sty t) (val_of v)))
-  | "puper", [std; t; v] -> Some (hex_opt (pb_uper_encode (std = "1") (parse_sty t) (val_of v)))
-  | "pberdec", [t; h] -> Some (dec_s (pb_ber_decode (parse_sty t) (bytes_of_hex h)))
-  | "puperdec", [std; t; h] -> Some (dec_s (pb_uper_decode (std = "1") (parse_sty t) (bytes_of_hex h)))
-  | "poerdec", [t; h] -> Some (dec_s (pb_oer_decode (parse_sty t) (bytes_of_hex h)))
+  | "sbder", [t; v] -> Some (hex_opt (pb_der (parse_sty t) (val_of v)))
+  | "sboer", [t; v] -> Some (hex_opt (pb_oer (parse_sty t) (val_of v)))
+  | "sbuper", [std; t; v] -> Some (hex_opt (pb_uper_encode (std = "1") (parse_sty t) (val_of v)))
+  | "sbberdec", [t; h] -> Some (dec_s (pb_ber_decode (parse_sty t) (bytes_of_hex h)))
+  | "sbuperdec", [std; t; h] -> Some (dec_s (pb_uper_decode (std = "1") (parse_sty t) (bytes_of_hex h)))
+  | "sboerdec", [t; h] -> Some (dec_s (pb_oer_decode (parse_sty t) (bytes_of_hex h)))
   | "spec_pder", [tg; k; cs] -> Some (hex_of_bytes (spec_der_str (cz_of_string tg) (kind_of k.[0]) (chars_of cs)))
   | "spec_poer", [l; cs] -> Some (hex_of_bytes (spec_oer_str (leaf_of l) (chars_of cs)))
   | "spec_puper", [l; cs] ->
